@@ -444,7 +444,375 @@ def gen_errors():
     return write_if_changed("ExecErrors.lean", "\n".join(lines))
 
 
+# ----------------------------------------------------------------------------- pest grammar
+
+class PestParser:
+    """recursive-descent reader for the subset of pest syntax used by simplesl.pest"""
+    TOK = re.compile(r'\s*(?://[^\n]*\n\s*)*("(?:\\.|[^"\\])*"|[A-Za-z_][A-Za-z0-9_]*|[=_@$!{}()|~*+?&])')
+
+    def __init__(self, src):
+        self.toks = []
+        pos = 0
+        src = src.rstrip() + "\n"
+        while pos < len(src):
+            m = self.TOK.match(src, pos)
+            if not m:
+                if src[pos:].strip() == "" or re.match(r"\s*(//[^\n]*\n\s*)*$", src[pos:]):
+                    break
+                raise TranslateError("pest: cannot tokenise at %r" % src[pos:pos + 40])
+            self.toks.append(m.group(1))
+            pos = m.end()
+        self.i = 0
+
+    def peek(self):
+        return self.toks[self.i] if self.i < len(self.toks) else None
+
+    def next(self):
+        t = self.peek()
+        self.i += 1
+        return t
+
+    def expect(self, t):
+        if self.next() != t:
+            raise TranslateError("pest: expected %s near token %d (%s)" % (t, self.i, self.toks[max(0, self.i - 3):self.i + 2]))
+
+    def rules(self):
+        out = []
+        while self.peek() is not None:
+            name = self.next()
+            if not re.match(r"^[A-Za-z_]\w*$", name):
+                raise TranslateError("pest: rule name expected, got %s" % name)
+            self.expect("=")
+            kind = "normal"
+            if self.peek() in ("_", "@", "$", "!"):
+                kind = {"_": "silent", "@": "atomic", "$": "compound", "!": "nonatomic"}[self.next()]
+            self.expect("{")
+            e = self.choice()
+            self.expect("}")
+            out.append((name, kind, e))
+        return out
+
+    def choice(self):
+        if self.peek() == "|":
+            self.next()
+        alts = [self.seq()]
+        while self.peek() == "|":
+            self.next()
+            alts.append(self.seq())
+        return alts[0] if len(alts) == 1 else ("choice", alts)
+
+    def seq(self):
+        items = [self.term()]
+        while self.peek() == "~":
+            self.next()
+            items.append(self.term())
+        return items[0] if len(items) == 1 else ("seq", items)
+
+    def term(self):
+        t = self.peek()
+        if t in ("!", "&"):
+            self.next()
+            return ("not" if t == "!" else "and", self.term())
+        if t == "(":
+            self.next()
+            e = self.choice()
+            self.expect(")")
+        elif t is not None and t.startswith('"'):
+            self.next()
+            e = ("str", bytes(t[1:-1], "utf-8").decode("unicode_escape"))
+        elif t is not None and re.match(r"^[A-Za-z_]\w*$", t):
+            self.next()
+            e = ("rule", t)
+        else:
+            raise TranslateError("pest: unexpected token %s" % t)
+        while self.peek() in ("*", "+", "?"):
+            e = ({"*": "star", "+": "plus", "?": "opt"}[self.next()], e)
+        return e
+
+
+BUILTINS = {"ANY", "ASCII_ALPHANUMERIC", "ASCII_ALPHA", "ASCII_DIGIT", "ASCII_BIN_DIGIT",
+            "ASCII_OCT_DIGIT", "ASCII_HEX_DIGIT", "NEWLINE", "EOI"}
+
+
+def peg_lean(e):
+    k = e[0]
+    if k == "str":
+        return "(.str %s)" % lstr(e[1])
+    if k == "rule":
+        if e[1] in BUILTINS:
+            return "(.builtin %s)" % lstr(e[1])
+        return "(.rule %s)" % lstr(e[1])
+    if k in ("choice", "seq"):
+        return "(.%s [%s])" % (k, ", ".join(peg_lean(x) for x in e[1]))
+    return "(.%s %s)" % ({"not": "notP", "and": "andP", "star": "star", "plus": "plus", "opt": "opt"}[k], peg_lean(e[1]))
+
+
+_grammar_cache = {}
+
+
+def parse_grammar():
+    src = read("parser/src/simplesl.pest")
+    if src not in _grammar_cache:
+        rules = PestParser(src).rules()
+        names = {r[0] for r in rules}
+        def check(e):
+            if e[0] == "rule" and e[1] not in names and e[1] not in BUILTINS:
+                raise TranslateError("pest: reference to unknown rule %s" % e[1])
+            if e[0] in ("choice", "seq"):
+                for x in e[1]:
+                    check(x)
+            elif e[0] in ("not", "and", "star", "plus", "opt"):
+                check(e[1])
+        for r in rules:
+            check(r[2])
+        if len(names) != len(rules):
+            raise TranslateError("pest: duplicate rule")
+        _grammar_cache[src] = rules
+    return src, _grammar_cache[src]
+
+
+def gen_grammar():
+    src, rules = parse_grammar()
+    lines = ["-- GENERATED by tools/translate.py from /repo (do not edit).",
+             "-- source: parser/src/simplesl.pest@" + sha(src),
+             "import SslModel.Model.Peg", "namespace Ssl.Gen", "open Ssl.Peg", "",
+             "def grammar : List (String × RuleKind × Peg) := ["]
+    lines.append(",\n".join("  (%s, .%s, %s)" % (lstr(n), k, peg_lean(e)) for n, k, e in rules))
+    lines += ["]", "", "end Ssl.Gen", ""]
+    return write_if_changed("Grammar.lean", "\n".join(lines))
+
+
+def alternatives(rules, name):
+    """ordered alternatives of rule `name` with silent choice rules inlined:
+    list of (rule name, literal text or None)"""
+    d = {n: (k, e) for n, k, e in rules}
+    out = []
+
+    def lit(e):
+        # literal text a rule starts with (for operator rules: the whole literal, or the leading one)
+        if e[0] == "str":
+            return e[1]
+        if e[0] == "seq" and e[1][0][0] == "str":
+            return e[1][0][1]
+        return None
+
+    def walk(e):
+        if e[0] == "choice":
+            for x in e[1]:
+                walk(x)
+        elif e[0] == "rule":
+            k, body = d[e[1]]
+            if k == "silent" and body[0] in ("choice", "rule"):
+                walk(body)
+            elif k == "silent" and body[0] == "seq":
+                for x in body[1]:
+                    if x[0] == "rule":
+                        walk(x)
+            else:
+                out.append((e[1], lit(body)))
+        else:
+            raise TranslateError("pest: rule %s is not an ordered choice of rules" % name)
+    walk(d[name][1])
+    return out
+
+
+# ----------------------------------------------------------------------------- Pratt table, doc table, operator maps
+
+def gen_pratt():
+    src = read("parser/src/lib.rs")
+    toks = lex(src)
+    try:
+        i = next(k for k in range(len(toks) - 4) if toks[k:k + 5] == ["PrattParser", "::", "new", "(", ")"])
+    except StopIteration:
+        raise TranslateError("parser/src/lib.rs: PrattParser::new() not found")
+    i += 5
+    levels = []
+    while toks[i] == ".":
+        if toks[i + 1] != "op" or toks[i + 2] != "(":
+            raise TranslateError("lib.rs: expected .op( in the PrattParser chain, got .%s" % toks[i + 1])
+        e = match_close(toks, i + 2)
+        ops = []
+        for part in split_top(toks[i + 3:e], "|"):
+            p = " ".join(part)
+            m = re.match(r"^Op :: infix \( (\w+) , (Left|Right) \)$", p)
+            if m:
+                ops.append((m.group(1), "infixL" if m.group(2) == "Left" else "infixR"))
+                continue
+            m = re.match(r"^Op :: (prefix|postfix) \( (\w+) \)$", p)
+            if m:
+                ops.append((m.group(2), m.group(1) + "Op"))
+                continue
+            raise TranslateError("lib.rs: unrecognised operator spec `%s`" % p)
+        levels.append(ops)
+        i = e + 1
+    if not levels:
+        raise TranslateError("lib.rs: empty PrattParser chain")
+    # pin pest's version and the hash of its pratt_parser.rs
+    lock = read("Cargo.lock")
+    m = re.search(r'name = "pest"\nversion = "([^"]+)"', lock)
+    pest_ver = m.group(1) if m else "?"
+    pratt_src = None
+    reg = os.path.expanduser("~/.cargo/registry/src")
+    if os.path.isdir(reg):
+        for d in os.listdir(reg):
+            p = os.path.join(reg, d, "pest-%s" % pest_ver, "src", "pratt_parser.rs")
+            if os.path.exists(p):
+                pratt_src = open(p, encoding="utf-8").read()
+    pratt_sha = hashlib.sha256(pratt_src.encode()).hexdigest() if pratt_src else "unavailable"
+    _, rules = parse_grammar()
+    bin_alts = alternatives(rules, "bin_op")
+    pre_alts = alternatives(rules, "prefix_op")
+    post_alts = alternatives(rules, "postfix_op")
+    prim_alts = alternatives(rules, "primary")
+    lines = ["-- GENERATED by tools/translate.py from /repo (do not edit).",
+             "-- sources: parser/src/lib.rs@%s parser/src/simplesl.pest Cargo.lock" % sha(src),
+             "import SslModel.Model.Pratt", "namespace Ssl.Gen", "open Ssl.Pratt", "",
+             "/-- `.op(...)` levels of PRATT_PARSER, lowest precedence first -/",
+             "def prattLevels : List (List (String × Affix)) := ["]
+    lines.append(",\n".join("  [%s]" % ", ".join("(%s, .%s)" % (lstr(r), a) for r, a in lv) for lv in levels))
+    lines.append("]")
+    lines.append("")
+    for nm, alts in (("binOpAlts", bin_alts), ("prefixOpAlts", pre_alts), ("postfixOpAlts", post_alts)):
+        lines.append("/-- ordered alternatives (silent rules inlined) with their leading literal -/")
+        lines.append("def %s : List (String × String) := [%s]" % (nm, ", ".join(
+            "(%s, %s)" % (lstr(r), lstr(l if l is not None else "")) for r, l in alts)))
+    lines.append("def primaryAlts : List String := [%s]" % ", ".join(lstr(r) for r, _ in prim_alts))
+    lines.append("def pestVersion : String := %s" % lstr(pest_ver))
+    lines.append("def prattParserSha256 : String := %s" % lstr(pratt_sha))
+    lines += ["", "end Ssl.Gen", ""]
+    return write_if_changed("PrattTable.lean", "\n".join(lines))
+
+
+DOC_ALIASES = {
+    "[]": ["at", "slicing"], "? type": ["type_filter"], "()": ["function_call"],
+    "!": ["not"], "-": None, "*": None,   # resolved by level context below
+    "@": ["map"], "?": ["filter"], "\\\\": ["partition"], "\\": ["partition"],
+    "$ expression": ["reduce"], "$+": ["sum"], "$*": ["product"], "$&&": ["all"],
+    "$||": ["reduce_any"], "$&": ["bitand_reduce"], "$|": ["bitor_reduce"], "~": ["iter"],
+    "**": ["pow"], "/": ["divide"], "%": ["modulo"], "+": ["add"], "<<": ["lshift"],
+    ">>": ["rshift"], "&": ["bitwise_and"], "^": ["xor"], "|": ["bitwise_or"], "==": ["equal"],
+    "!=": ["not_equal"], "<": ["lower"], "<=": ["lower_equal"], ">": ["greater"],
+    ">=": ["greater_equal"], "&&": ["and"], "||": ["or"], "=": ["assign"], "+=": ["assign_add"],
+    "-=": ["assign_subtract"], "*=": ["assing_multiply"], "/=": ["assign_divide"],
+    "%=": ["assign_modulo"], "**=": ["assign_pow"], "&=": ["assign_bitwise_and"],
+    "|=": ["assign_bitwise_or"], "^=": ["assign_xor"], "<<=": ["assign_lshift"],
+    ">>=": ["assign_rshift"],
+}
+# rows the table does not list but the property statement places on a level
+DOC_IMPLICIT = {1: ["tuple_access", "field_access"], 3: ["collect"]}
+
+
+def doc_levels():
+    """[(level, [rules], 'left'|'right')] parsed from docs/operators.md"""
+    src = read("docs/operators.md")
+    m = re.search(r"## Precedence\n(.*?)\n\n", src, re.S)
+    if not m:
+        raise TranslateError("docs/operators.md: Precedence section not found")
+    rows = [r for r in m.group(1).splitlines() if r.startswith("|")]
+    levels = {}   # level -> (ops, assoc)
+    cur = None
+    for r in rows[2:]:
+        r = re.sub(r"^\|(\s*)\|(\s*)\|=", r"|\1|\2\\|=", r)   # the `|=` row is not escaped in the source
+        # split on unescaped pipes
+        cells = [c.strip() for c in re.split(r"(?<!\\)\|", r)[1:]]
+        if len(cells) < 2:
+            raise TranslateError("operators.md: malformed row %s" % r)
+        lvl, op = cells[0], cells[1].replace("\\|", "|")
+        if op == "" and len(cells) >= 3:
+            # a row like `|            | |=           | ...` : the operator itself is a pipe form
+            raise TranslateError("operators.md: empty operator cell in %s" % r)
+        assoc = cells[3] if len(cells) > 3 else ""
+        if lvl:
+            cur = int(lvl)
+            levels[cur] = ([], None)
+        if cur is None:
+            raise TranslateError("operators.md: row before first level")
+        ops, a = levels[cur]
+        if op in ("-", "*"):
+            rule = {("-", 2): "unary_minus", ("*", 2): "indirection", ("-", 6): "subtract",
+                    ("*", 5): "multiply"}.get((op, cur))
+            if rule is None:
+                raise TranslateError("operators.md: operator %s on unexpected level %d" % (op, cur))
+            names = [rule]
+        else:
+            if op not in DOC_ALIASES or DOC_ALIASES[op] is None:
+                raise TranslateError("operators.md: unknown operator cell `%s`" % op)
+            names = DOC_ALIASES[op]
+        ops.extend(names)
+        if "Right-to-left" in assoc:
+            a = "right"
+        elif "Left-to-right" in assoc:
+            a = "left"
+        levels[cur] = (ops, a)
+    out = []
+    default = "left"
+    for lvl in sorted(levels):
+        ops, a = levels[lvl]
+        ops = ops + DOC_IMPLICIT.get(lvl, [])
+        out.append((lvl, ops, a or default))
+    return src, out
+
+
+def gen_doc():
+    src, out = doc_levels()
+    lines = ["-- GENERATED by tools/translate.py from /repo (do not edit).",
+             "-- source: docs/operators.md@" + sha(src),
+             "namespace Ssl.Gen", "",
+             "/-- precedence table of docs/operators.md: (level (1 = binds tightest), rules, right-assoc?) -/",
+             "def docLevels : List (Nat × List String × Bool) := ["]
+    lines.append(",\n".join("  (%d, [%s], %s)" % (lvl, ", ".join(lstr(o) for o in ops), "true" if a == "right" else "false")
+                           for lvl, ops, a in out))
+    lines += ["]", "", "end Ssl.Gen", ""]
+    return write_if_changed("DocPrecedence.lean", "\n".join(lines))
+
+
+def gen_binop():
+    src = read("src/bin_operator.rs")
+    toks = lex(src)
+    i = next(k for k in range(len(toks)) if toks[k] == "enum" and toks[k + 1] == "BinOperator")
+    e = match_close(toks, i + 2)
+    inner = toks[i + 3:e]
+    variants = []
+    k = 0
+    disp = None
+    while k < len(inner):
+        if inner[k] == "#":
+            ce = match_close(inner, k + 1)
+            attr = inner[k + 2:ce]
+            if attr and attr[0] == "display":
+                disp = bytes(attr[2][1:-1], "utf-8").decode("unicode_escape")
+            k = ce + 1
+            continue
+        if re.match(r"^[A-Z]\w*$", inner[k]):
+            variants.append((inner[k], disp))
+            disp = None
+        k += 1
+    fn = find_fn(toks, "from")
+    if fn is None:
+        raise TranslateError("bin_operator.rs: From<Rule> not found")
+    m = find_match(fn[1])
+    pairs = []
+    for pat, guard, rhs in m[1]:
+        if pat == ["_"]:
+            continue
+        if len(pat) == 3 and pat[0] == "Rule" and len(rhs) == 3 and rhs[0] == "Self":
+            pairs.append((pat[2], rhs[2]))
+        else:
+            raise TranslateError("bin_operator.rs: unrecognised arm %s" % " ".join(pat))
+    usrc = read("src/unary_operator.rs")
+    lines = ["-- GENERATED by tools/translate.py from /repo (do not edit).",
+             "-- source: src/bin_operator.rs@" + sha(src),
+             "namespace Ssl.Gen", "",
+             "/-- BinOperator variants with their `#[display]` text (empty = none) -/",
+             "def binOperators : List (String × String) := [%s]" % ", ".join("(%s, %s)" % (lstr(v), lstr(d or "")) for v, d in variants),
+             "/-- `impl From<Rule> for BinOperator` -/",
+             "def ruleToBinOp : List (String × String) := [%s]" % ", ".join("(%s, %s)" % (lstr(a), lstr(b)) for a, b in pairs),
+             "", "end Ssl.Gen", ""]
+    return write_if_changed("BinOpMap.lean", "\n".join(lines))
+
+
 PARTS = {"scalar": gen_scalar, "errors": gen_errors}
+PARTS.update({"grammar": gen_grammar, "pratt": gen_pratt, "doc": gen_doc, "binop": gen_binop})
 
 
 def main(argv):
